@@ -1,13 +1,14 @@
 #!/bin/bash
 # tools/try_mutant.sh <patch.diff> <property ids...> : apply a seeded change to the repository under test (/repo, or
 # $VERIF_REPO for a scratch worktree), run the named quick checks, undo it
+V=$(cd "$(dirname "$0")/.." && pwd)
 diff=$(realpath "$1"); shift
 R=${VERIF_REPO:-/repo}
 cd $R || exit 3
 if ! git diff --quiet; then echo "$R is dirty"; exit 3; fi
 git apply "$diff" || { echo "patch does not apply"; exit 3; }
 trap "git -C $R checkout -- . ; git -C $R clean -fdq src tests 2>/dev/null" EXIT
-cd /verif
+cd $V
 for id in "$@"; do
   out=$(./check $id --tier ${TIER:-quick} 2>&1); code=$?
   echo "== $id exit=$code :: $(echo "$out" | grep -E "^C[0-9]+ tier=" | tail -1)"
